@@ -194,6 +194,21 @@ Proof. exact no_panic_without_trim. Qed.
 Print Assumptions C20_no_panic_without_trim.
 
 (* every .unwrap()/.expect() of main.rs is a reviewed one; Pixmap::new is checked with `?`, draw_pixmap is guarded *)
+(* --- extension round 4: sizes are never zero / out of range, on every path of the state machine --- *)
+Theorem C20_fit_size_valid : forall f s r, isize_valid s -> fit_to_size f s = Some r -> isize_valid r.
+Proof. exact fit_size_valid. Qed.
+Print Assumptions C20_fit_size_valid.
+
+Theorem C20_render_ok_dims : forall a e sz d, render_svg a e sz = ROk d ->
+  0 < is_w d <= MAX_PIXMAP_W /\ 0 < is_h d <= U32_MAX.
+Proof. exact render_ok_dims. Qed.
+Print Assumptions C20_render_ok_dims.
+
+Theorem C20_written_image_dims_valid : forall a e d, fst (process a e) = Exit0 (Some d) ->
+  snd (process a e) = true /\ 0 < is_w d <= MAX_PIXMAP_W /\ 0 < is_h d <= U32_MAX.
+Proof. exact written_image_dims_valid. Qed.
+Print Assumptions C20_written_image_dims_valid.
+
 Theorem C20_unwrap_ledger : unwrap_ledger_ok = true.
 Proof. exact unwrap_ledger. Qed.
 Print Assumptions C20_unwrap_ledger.
